@@ -294,6 +294,8 @@ type typecacheDriver struct {
 	stored    map[string]bool            // T/tag analysed+stored at least once
 	evict     map[string]bool            // T/tag re-analysed after an eviction
 	lastOv    map[string]bool            // T/tag -> previous call carried an override
+	sharedRM  valid.RM                   // one rule map object handed to every other call with overrides (refilled in place)
+	rmCalls   int
 	curKey    string
 	keepTypes bool
 	curMiss   bool
@@ -427,10 +429,23 @@ func (d *typecacheDriver) exec(id string, shape typecacheShape, tag string, ov m
 		}
 	}
 	var rm valid.RM
+	d.rmCalls++
 	for _, f := range d.meta.Fields {
 		if tok := ov[f]; tok != "" && tok != d.meta.NoRule {
 			if rm == nil {
-				rm = valid.NewRule()
+				// every other call with overrides hands over the SAME map object as earlier calls, emptied and refilled
+				// in place (callers keep one rule map around): what a call was given before must not matter
+				if d.rmCalls%2 == 0 {
+					if d.sharedRM == nil {
+						d.sharedRM = valid.NewRule()
+					}
+					for k := range d.sharedRM {
+						delete(d.sharedRM, k)
+					}
+					rm = d.sharedRM
+				} else {
+					rm = valid.NewRule()
+				}
 			}
 			rm.Set(f, d.meta.ruleText(tok))
 		}
